@@ -57,11 +57,12 @@ pub struct ValueStats {
     pub claims: u64,
     pub claims_checked: u64,
     pub claims_checked_multi: u64,
+    pub unmapped: u64,
 }
 
 /// Check every value claim of the SSA CFG against the reference traces.
 pub fn check_values(c: &SemCase, ix: &IrIndex, traces: &[Trace], ssa: &Cfg, ctx_label: &str) -> Result<ValueStats, Bad> {
-    let mut st = ValueStats { claims: 0, claims_checked: 0, claims_checked_multi: 0 };
+    let mut st = ValueStats { claims: 0, claims_checked: 0, claims_checked_multi: 0, unmapped: 0 };
     let render = || format!("prime {}\n{}\n--- SSA CFG ---\n{:?}", c.prime_name, c.r.src, ssa);
     for b in ssa.iter() {
         for stmt in b.statements() {
@@ -96,7 +97,13 @@ pub fn check_values(c: &SemCase, ix: &IrIndex, traces: &[Trace], ssa: &Cfg, ctx_
                 }
                 let Some(claim) = e.meta().value_knowledge().get_reduces_to() else { return };
                 st.claims += 1;
-                let Some(key) = ix.expr_key(c, e) else { return };
+                let Some(key) = ix.expr_key(c, e) else {
+                    st.unmapped += 1;
+                    if std::env::var("VERIF_DEBUG").is_ok() {
+                        eprintln!("unmapped claim on {:?} at {}..{}", e, e.meta().start(), e.meta().end());
+                    }
+                    return;
+                };
                 let mut n = 0;
                 for v in values(traces, key) {
                     n += 1;
@@ -245,6 +252,7 @@ fn case(tape: &[u8], rec: &Rec) -> Verdict {
     let st = check_values(&c, &ix, &traces, &ssa, "")?;
     rec.class_n("claims", st.claims);
     rec.class_n("claims_checked_against_a_run", st.claims_checked);
+    rec.class_n("claims_on_nodes_without_source_counterpart", st.unmapped);
     if st.claims_checked_multi > 0 {
         // at least one claimed constant on a node executed at least twice
         rec.nontrivial(fnv(c.r.src.as_bytes()));
